@@ -605,8 +605,8 @@ func Scenarios() []drv.Scenario {
 	return []drv.Scenario{
 		mk(cfg{name: "writer+reader-keep1", keep: 1, batches: 4}, d1r, d2),
 		mk(cfg{name: "writer+reader+copy-keep1", keep: 1, batches: 4, copy: true}, d1r, d2),
-		mk(cfg{name: "writer+reader+two-overlapping-copies-keep1", keep: 1, batches: 4, copy: true, copies: 2}, d1r, d2),
-		mk(cfg{name: "unsafe-writer+reader+two-overlapping-copies-keep1", keep: 1, batches: 4, copy: true, copies: 2, unsafe: true}, d1r, d2),
+		mk(cfg{name: "writer+reader+two-overlapping-copies-keep1", keep: 1, batches: 4, copy: true, copies: 2}, nil, d2),
+		mk(cfg{name: "unsafe-writer+reader+two-overlapping-copies-keep1", keep: 1, batches: 4, copy: true, copies: 2, unsafe: true}, nil, d2),
 		{Name: "slow-overlapping-backups-unsafe-keep1", Body: bodySlow(cfg{keep: 1, batches: 3}), Quick: d1r, Thorough: d2, Class: "files", MaxSteps: 1500000},
 		{Name: "close-arrives-during-persist-unsafe", Body: bodyCloseDuringPersist(cfg{keep: 1, batches: 3}), Quick: d1r, Thorough: d2, Class: "files", MaxSteps: 1500000},
 		{Name: "batch-introduced-between-merge-and-purge-keep1", Body: bodyPurgeGate(cfg{keep: 1}), Quick: d1r, Thorough: d2, Class: "files", MaxSteps: 1500000},
